@@ -138,7 +138,7 @@ def run(repo: Repo, rep: Report, tier: str) -> None:
             rep.check(ok, "C12-R2", f"{m.short}: a network is recorded only on a pole that was filtered or created for it",
                       ("hop of the filtered path search" if in_path_loop else "tested here" if tested else "pole comes from a routine that is handed the network id") if ok else
                       f"pole obtained by {', '.join(sorted(set(raw)))} is recorded under `{'; '.join(gs)[:110] or 'no test'}` without can_route_network: a pole that already carries another network on that colour joins the two", m.loc(c))
-    rep.floor("C12-R2", "add_network recording sites", n_rec, 2)
+    rep.floor("C12-R2", "add_network recording sites", n_rec, 1)  # the per-site rules below say which site must exist; a floor of 2 here turned a removed site (seeds C18/w4-m1, C19/w5-m2) into an analysis stop
     rs = net.methods["route_signal"]
     ok = any(isinstance(n, ast.For) and "self._find_path_through_existing_relays(" in canon(rs).text(n.iter) and any(call_name(x) == "add_network" for x in calls_in(n)) for n in walk_local(rs.node))
     rep.check(ok, "C12-R2", "a path through existing relays records the network on every relay used", "for relay in existing_path: add_network" if ok else "missing", rs.loc())
